@@ -27,6 +27,10 @@ pub enum Kind {
     Garbage,
     DisconnectMidHandshake,
     UdpAssociate,
+    /// bytes that are not a TLS ClientHello (or a stalled / truncated one) to a TLS listener: 0 or 1 record
+    TlsHandshakeFails,
+    /// a complete tunnel through a TLS listener (https or socks over TLS)
+    TlsTunnel,
 }
 
 #[derive(Clone, Debug, Serialize, Deserialize)]
@@ -63,6 +67,8 @@ pub fn case_strategy() -> impl Strategy<Value = Case> {
         2 => Just(Kind::Garbage),
         2 => Just(Kind::DisconnectMidHandshake),
         1 => Just(Kind::UdpAssociate),
+        2 => Just(Kind::TlsHandshakeFails),
+        2 => Just(Kind::TlsTunnel),
     ];
     let conn = (kind, 0u8..3, any::<u32>(), prop_oneof![Just(0u32), 1u32..5000, 60_000u32..300_000], prop_oneof![Just(0u32), 1u32..5000, 60_000u32..300_000], prop_oneof![Just(0u16), 0u16..400]).prop_map(
         |(kind, proto, tag, c2s, s2c, hold_ms)| Conn { kind, proto, tag, c2s, s2c, hold_ms },
@@ -80,12 +86,14 @@ struct Fx {
     proxy: Proxy,
     http: u16,
     socks: u16,
+    https: u16,
+    sockstls: u16,
     api: u16,
     refused: u16,
 }
 
 async fn fixture(history: u8, splice: bool) -> Result<Fx, String> {
-    let (http, socks, api, refused) = (free_port(), free_port(), free_port(), free_port());
+    let (http, socks, api, refused, https, sockstls) = (free_port(), free_port(), free_port(), free_port(), free_port(), free_port());
     let yaml = format!(
         r#"apiVersion: v1
 kind: test
@@ -94,6 +102,18 @@ listeners:
     bind: 127.0.0.1:{http}
   - name: socks
     bind: 127.0.0.1:{socks}
+  - name: https
+    type: http
+    bind: 127.0.0.1:{https}
+    tls:
+      cert: /verif/pki/server.crt
+      key: /verif/pki/server.key
+  - name: sockstls
+    type: socks
+    bind: 127.0.0.1:{sockstls}
+    tls:
+      cert: /verif/pki/server.crt
+      key: /verif/pki/server.key
 connectors:
   - name: direct
 rules:
@@ -116,12 +136,14 @@ ioParams:
 "#,
         http = http,
         socks = socks,
+        https = https,
+        sockstls = sockstls,
         api = api,
         history = history,
         splice = splice
     );
     let proxy = tokio::task::spawn_blocking(move || Proxy::start("c16", &yaml, &[http, socks, api], Some(api))).await.map_err(|e| e.to_string())??;
-    Ok(Fx { proxy, http, socks, api, refused })
+    Ok(Fx { proxy, http, socks, https, sockstls, api, refused })
 }
 
 async fn handshake(proto: u8, s: &mut TcpStream, d: Dest, early: Vec<u8>, dur: Duration) -> Reply {
@@ -151,8 +173,19 @@ struct Expect {
 async fn one_conn(fx: &Fx, c: &Conn, idx: usize) -> Result<Expect, String> {
     let dur = Duration::from_secs(10);
     let via_http = c.proto % 3 == 0 && c.kind != Kind::UdpAssociate;
-    let listener = if via_http { "http" } else { "socks" };
-    let port = if via_http { fx.http } else { fx.socks };
+    let tls_kind = matches!(c.kind, Kind::TlsHandshakeFails | Kind::TlsTunnel);
+    let listener = match (tls_kind, via_http) {
+        (true, true) => "https",
+        (true, false) => "sockstls",
+        (false, true) => "http",
+        (false, false) => "socks",
+    };
+    let port = match listener {
+        "https" => fx.https,
+        "sockstls" => fx.sockstls,
+        "http" => fx.http,
+        _ => fx.socks,
+    };
     let src = SocketAddr::from(([127, 0, 0, 1], free_port()));
     let mut s = connect_from(Some(src), lo(port)).await.map_err(|e| format!("connect #{}: {}", idx, e))?;
     let mut e = Expect {
@@ -279,6 +312,77 @@ async fn one_conn(fx: &Fx, c: &Conn, idx: usize) -> Result<Expect, String> {
                 }
                 other => return Err(format!("tunnel #{} not established: {:?}", idx, other)),
             }
+        }
+        Kind::TlsHandshakeFails => {
+            // what a confused or hostile peer sends instead of a handshake; the proxy may or may not log it
+            let junk: Vec<u8> = match c.tag % 4 {
+                0 => b"CONNECT 127.0.1.1:80 HTTP/1.1\r\n\r\n".to_vec(),
+                1 => vec![0x16, 0x03, 0x01, 0x02, 0x00, 0x01, 0x00, 0x01, 0xfc, 0x03, 0x03, 1, 2, 3],
+                2 => vec![5, 1, 0, 5, 1, 0, 1, 127, 0, 1, 1, 0, 80],
+                _ => vec![],
+            };
+            let _ = s.write_all(&junk).await;
+            if c.tag % 2 == 0 {
+                let _ = read_to_end_within(&mut s, Duration::from_millis(500 + c.hold_ms as u64)).await;
+            } else {
+                tokio::time::sleep(Duration::from_millis(c.hold_ms as u64)).await;
+            }
+            drop(s);
+            e.terminal = "ErrorOccured";
+            e.ended_at = Instant::now();
+            return Ok(e);
+        }
+        Kind::TlsTunnel => {
+            let l = tokio::net::TcpListener::bind("0.0.0.0:0").await.map_err(|e| e.to_string())?;
+            let oport = l.local_addr().unwrap().port();
+            let d = Dest { host: Host::V4([127, 0, 1, 1]), port: oport };
+            e.target = Some(d.render());
+            e.connector = Some("direct");
+            let c2s = vcore::payload(c.tag as u64, c.c2s as usize);
+            let s2c = vcore::payload(c.tag as u64 ^ 77, c.s2c as usize);
+            let s2c_o = s2c.clone();
+            let origin = tokio::spawn(async move {
+                let (mut os, _) = match tokio::time::timeout(Duration::from_secs(10), l.accept()).await {
+                    Ok(Ok(x)) => x,
+                    _ => return 0usize,
+                };
+                let mut got = 0usize;
+                let mut b = vec![0u8; 65536];
+                loop {
+                    match os.read(&mut b).await {
+                        Ok(0) | Err(_) => break,
+                        Ok(n) => got += n,
+                    }
+                }
+                let _ = os.write_all(&s2c_o).await;
+                let _ = os.shutdown().await;
+                got
+            });
+            let cx = tokio_rustls::TlsConnector::from(crate::tlsutil::client_config("ca.crt", None, None));
+            let mut t = cx.connect(crate::tlsutil::server_name(), s).await.map_err(|e| format!("tls #{}: {}", idx, e))?;
+            let r = if via_http { http_connect(&mut t, &d.authority(), &[], &[], dur).await } else { socks5_connect(&mut t, &d, None, 1, &[], dur).await };
+            let leftover = match r {
+                Reply::Ok { leftover } => leftover,
+                other => return Err(format!("tls tunnel #{} not established: {:?}", idx, other)),
+            };
+            t.write_all(&c2s).await.map_err(|e| e.to_string())?;
+            t.shutdown().await.map_err(|e| e.to_string())?;
+            let mut got = leftover.len();
+            let mut b = vec![0u8; 65536];
+            loop {
+                match tokio::time::timeout(Duration::from_secs(15), t.read(&mut b)).await {
+                    Ok(Ok(n)) if n > 0 => got += n,
+                    _ => break,
+                }
+            }
+            let ogot = origin.await.unwrap_or(0);
+            if ogot != c2s.len() || got != s2c.len() {
+                return Err(format!("tls tunnel #{} relayed {}/{} and {}/{} bytes (C01's business, cannot judge the counters)", idx, ogot, c2s.len(), got, s2c.len()));
+            }
+            e.bytes = Some((c2s.len() as u64, s2c.len() as u64));
+            e.terminal = "Terminated";
+            e.ended_at = Instant::now();
+            return Ok(e);
         }
         Kind::Denied | Kind::NoRule | Kind::UpstreamRefused => {
             let (ip, port) = match c.kind {
@@ -430,6 +534,11 @@ pub async fn run_case(c: &Case) -> Result<(bool, serde_json::Value), Failure> {
     for e in &expects {
         let recs = by_source.get(&e.source.to_string()).cloned().unwrap_or_default();
         let k = format!("{:?}", e.kind);
+        if e.kind == Kind::TlsHandshakeFails && recs.is_empty() {
+            // a connection that never got through the TLS handshake need not be recorded; if it is, the record
+            // must be a complete one (checked below)
+            continue;
+        }
         if recs.len() != 1 {
             return Err(Failure::new(
                 format!("{}:{}", if recs.is_empty() { "missing-from-log" } else { "logged-more-than-once" }, k),
@@ -541,7 +650,7 @@ impl SubCheck for HistoriesCheck {
         "histories"
     }
     fn rule(&self) -> String {
-        "generated mixes of 1-39 connections (concurrency 1-15) on a fresh real proxy each: tunnels with payloads up to 300 kB per direction (with and without early data), denied, no rule, upstream refused, client RST mid-transfer, origin RST, handshake garbage, disconnect inside the handshake, SOCKS5 UDP association ended by its 1 s idle timeout; through HTTP CONNECT, SOCKS5 and SOCKS4; historySize in {0,1,3,50}; splice on/off; the access log renamed + POST /logrotate at generated points; every client binds its own source port; oracle: exactly one JSON log record per accepted connection across all log files, distinct ids, right listener / target / connector, lifecycle-conformant state log with exactly one terminal state and error text iff ErrorOccured, byte counters == relayed payload for clean tunnels, listed in /api/live while open and not 2.6 s after the end, /api/history bounded, duplicate-free, newest first and holding the most recent ends; non-trivial = >= 3 outcome kinds, a rotation during traffic, or historySize smaller than the burst".into()
+        "generated mixes of 1-39 connections (concurrency 1-15) on a fresh real proxy each: tunnels with payloads up to 300 kB per direction (with and without early data), denied, no rule, upstream refused, client RST mid-transfer, origin RST, handshake garbage, disconnect inside the handshake, SOCKS5 UDP association ended by its 1 s idle timeout, complete tunnels through the TLS listeners (https, SOCKS5 over TLS), peers that send no / a truncated / a wrong-protocol TLS ClientHello to those listeners (0 or 1 record allowed, a record must be complete); through HTTP CONNECT, SOCKS5 and SOCKS4; historySize in {0,1,3,50}; splice on/off; the access log renamed + POST /logrotate at generated points; every client binds its own source port; oracle: exactly one JSON log record per accepted connection across all log files, distinct ids, right listener / target / connector, lifecycle-conformant state log with exactly one terminal state and error text iff ErrorOccured, byte counters == relayed payload for clean tunnels, listed in /api/live while open and not 2.6 s after the end, /api/history bounded, duplicate-free, newest first and holding the most recent ends; non-trivial = >= 3 outcome kinds, a rotation during traffic, or historySize smaller than the burst".into()
     }
     fn run(&self, part: &mut Part) {
         let n = part.tier.pick(16, 400) as usize;
